@@ -141,7 +141,7 @@ def scale(cx, plaintext):
 
 
 BAD_TEXT = ['F0 1 F7', 'F0 0G F7', 'F0 01 F', 'F 0 01 F7', 'F0 01 F7 x', 'F0,01,F7', '0xF0 0x01 0xF7', 'F0 01F 7',
-            'F0 -1 F7', 'hello', 'F0 01 F7\x00']
+            'F0 -1 F7', 'hello', 'F0 01 F7\x00', 'F0 01 F7 \xe9', 'F0 \xff 01 F7', '\xe9\xe8', 'F0 01 F7\xb7']
 
 
 @harness(labels=['bad-hex-raises-ValueError'])
@@ -158,7 +158,7 @@ BOUNDS = {
     'quick': 'lists of 0..3 messages, each of a symbolically chosen kind among sysex with 0/1/2/4 symbolic data bytes, note_on, '
              'clock, songpos, tune_request: binary and plain-text write -> read; payloads of 127/128/4096 symbolic-fill bytes; '
              'binary files with other messages and a stray byte between sysex messages; text files of 1-2 sysex (payload 0..2) '
-             'with leading/inner/trailing white space from a 7-entry menu and upper/lower case; 11 corrupt texts; concrete scale probes (1023..3000 messages, payloads of 21844..30001 bytes in both formats)',
+             'with leading/inner/trailing white space from a 7-entry menu and upper/lower case; 15 corrupt texts (incl. non-ASCII junk); concrete scale probes (1023..3000 messages, payloads of 21844..30001 bytes in both formats)',
     'thorough': 'lists of 4 messages',
 }
 OUTSIDE = 'real file system semantics (open() is replaced by an in-memory double in mido.syx); text encodings other than ' \
